@@ -159,7 +159,7 @@ func execIn(t *testing.T, scn *Scenario, tape []int32, run *Run) {
 			continue
 		}
 		if isDone(tk.finished) {
-			tk.Finished = true
+			tk.Finished = !tk.Late
 			run.Tasks = append(run.Tasks, tk)
 			if tk.Panic != "" {
 				run.Panics = append(run.Panics, tk.Name+": "+tk.Panic)
